@@ -77,6 +77,20 @@ func runC10(c *core.Ctx) {
 			chk("offline_signature.SigningPublicKeySize", n != 0, n, info.PubLen)
 			n = offline_signature.SignatureSize(uint16(code))
 			chk("offline_signature.SignatureSize", n != 0, n, info.SigLen)
+			// offline signature constructor: the key and the signature have exactly the table's lengths
+			if known && info.PubLen+1 < len(buf) && info.SigLen+1 < len(buf) {
+				if _, err := offline_signature.NewOfflineSignature(1, uint16(code), buf[:info.PubLen], buf[700:764], 7); err != nil {
+					disagree("offline_signature.NewOfflineSignature", "known-unknown-verdict", code, "rejects a transient key of the specified length: "+firstLineOf(err.Error()))
+				}
+				for _, d := range []int{1, -1} {
+					if _, err := offline_signature.NewOfflineSignature(1, uint16(code), buf[:info.PubLen+d], buf[700:764], 7); err == nil {
+						disagree("offline_signature.NewOfflineSignature", "length-differs", code, fmt.Sprintf("accepts a transient key of %d bytes (specified: %d)", info.PubLen+d, info.PubLen))
+					}
+					if _, err := offline_signature.NewOfflineSignature(1, 7, buf[:32], buf[100:100+info.SigLen+d], uint16(code)); err == nil {
+						disagree("offline_signature.NewOfflineSignature", "length-differs", code, fmt.Sprintf("accepts a signature of %d bytes for destination type %d (specified: %d)", info.SigLen+d, code, info.SigLen))
+					}
+				}
+			}
 			// offline signature parser: transient type = code, destination type = code
 			o := rm.Offline{Expires: 1, SigType: uint16(code), TransientKey: buf[:info.PubLen], Sig: buf[100:164]}
 			enc := append(o.Encode(), buf[:600]...)
